@@ -787,6 +787,14 @@ def check_class(ctx, prog, rule, ci, lut_attrs=(), phases=('_initialize', '_upda
                                           f'depends on the state of other samples')
                 if not bad:
                     sink('ok', f, f.node, 'sample axis never reduced nor indexed at a constant position: each result column depends on its own sample only')
+                # per-word results: the value for word w may depend on the state of word w only
+                badw = [(fn, node, 'is indexed at a constant position') for fn, node, ax in ty.class_const_index if base(ax) == 'W'] + \
+                       [(fn, node, 'is reduced') for fn, node, ax in ty.reduced_axes if base(ax) == 'W']
+                for fn, node, what in badw:
+                    sink('bad', fn, node, f'the word axis {what} in `{norm(node)[:60]}` while computing per-word results: the result for one data word depends on the state of '
+                                          f'another word (e.g. the marginal histogram of word 0 used for every word)')
+                if not badw:
+                    sink('ok', f, f.node, 'word axis never reduced nor indexed at a constant position: each result row depends on its own data word only')
         else:
             ty.run(f, dict(seeds))
     return counter[0], ty
